@@ -249,9 +249,30 @@ pub fn min_(a: usize, b: usize) -> (r: usize) ensures r == (if a <= b { a as int
 
 def stage3(u, cs, A, IMPL):
     sb = u.extract(A, IMPL, 'horner_ops_share_b_idx', 'AluAir::horner_ops_share_b_idx')
-    u.fns.remove(sb)   # not brought under contract: assumed stub below (its iterator chain is outside the normaliser)
+    # the real function under contract (window passed as a slice); compute_schedule calls the stub below, whose contract is this one read on chain[i..i+k]
+    from units.openin import unall
+    sb.set_sig('R11', 'fn horner_ops_share_b_idx_real(preprocessed: &[Fe], plw: usize, op_indices: &[usize]) -> bool')
+    sb.rewrite_re('R11', r'let (\w+): &AluPrepLaneCols<F> =\s*(\w+)\[(.+?)\]\.borrow\(\);', r'let \1 = borrow_prep(&\2[\3]);', min_count=0, flags_dotall=True)
+    sb.rewrite_re('R6', r'op_indices\.is_empty\(\)', 'op_indices.len() == 0', min_count=0)
+    unall(sb)
+    from vf.unit import unref_patterns_in_arms
+    unref_patterns_in_arms(sb)
+    sb.rewrite_re('R1', r'let &idx = &op_indices\[(\w+)\];', r'let idx = op_indices[\1];', min_count=0)
+    sb.attr('#[verifier::loop_isolation(false)]')
+    sb.requires('window_in_range', 'plw == NPREP && preprocessed@.len() < 0x1_0000_0000 && forall|p: int| 0 <= p < op_indices@.len() ==> (#[trigger] op_indices@[p] + 1) * NPREP <= preprocessed@.len()')
+    sb.ensures('true_iff_every_op_of_the_window_reads_the_same_b', 'ret == forall|p: int| 0 <= p < op_indices@.len() ==> b_of(preprocessed@, (#[trigger] op_indices@[p]) as int) == b_of(preprocessed@, op_indices@[0] as int)')
+    for hd in [h for h in ('for q0_ in 0..op_indices.len()',) if h in sb.body]:
+        lo = sb._loop_open(hd)
+        sb.body = sb.body[:lo + 1] + ''' proof { assert((op_indices@[q0_ as int] + 1) * NPREP <= preprocessed@.len()); assert((op_indices@[q0_ as int] + 1) * NPREP == op_indices@[q0_ as int] * NPREP + NPREP) by (nonlinear_arith); assert(0 <= op_indices@[q0_ as int] * NPREP) by (nonlinear_arith); } ''' + sb.body[lo + 1:]
+        sb.loop(hd, invariants=[('all_so_far', 'all0_ == forall|p: int| 0 <= p < q0_ ==> b_of(preprocessed@, (#[trigger] op_indices@[p]) as int) == b0')])
+    if 'let b0 = prep0.b_idx;' in sb.body:
+        sb.before('let prep0 = borrow_prep(', 'proof { assert((op_indices@[0] + 1) * NPREP <= preprocessed@.len()); assert((op_indices@[0] + 1) * NPREP == op_indices@[0] * NPREP + NPREP) by (nonlinear_arith); assert(0 <= op_indices@[0] * NPREP) by (nonlinear_arith); }')
+        sb.after('let b0 = prep0.b_idx;', 'proof { assert(b0 == b_of(preprocessed@, op_indices@[0] as int)); }')
+    u.text('verus! {')
+    u.emit(sb)
+    u.text('}')
     u.text("""verus! {
-/// ASSUMED: all listed operations read the same `b` index (horner_ops_share_b_idx over chain[i..i+k])
+/// the contract above, read on the window chain[i..i+k] (how compute_schedule passes it)
 #[verifier::external_body]
 pub fn horner_ops_share_b_idx(preprocessed: &[Fe], plw: usize, chain: &Vec<usize>, i: usize, k: usize) -> (r: bool)
     requires i + k <= chain@.len()
